@@ -1012,21 +1012,40 @@ fn random_scenario(rng: &mut Rng) -> Scenario {
     fam(99, nt, opts, steps)
 }
 
+/// a rough estimate (ms) of how long a scenario takes on the wall clock: used only to start the long ones first
+fn est_cost(sc: &Scenario) -> u64 {
+    let settle = 1000 * (sc.opts.0 + sc.opts.1).max(2);
+    sc.steps
+        .iter()
+        .map(|&(k, a, b)| match k {
+            K_SLEEP => a,
+            K_REVNOWAIT => b,
+            K_SETTLE | K_WAKE => settle,
+            K_KILL | K_START => 1500,
+            _ => 100,
+        })
+        .sum()
+}
+
 async fn run_all(bin: PathBuf, scratch: PathBuf, scs: Vec<Scenario>, out: &mut dyn Write) {
     let par = env_u64("CP_PAR", 16) as usize;
     let sem = Arc::new(tokio::sync::Semaphore::new(par));
-    let mut handles = Vec::new();
-    for (i, sc) in scs.into_iter().enumerate() {
+    // longest first (the output keeps the order of the scenario list)
+    let n = scs.len();
+    let mut order: Vec<(usize, Scenario)> = scs.into_iter().enumerate().collect();
+    order.sort_by_key(|(i, sc)| (std::cmp::Reverse(est_cost(sc)), *i));
+    let mut handles: Vec<Option<tokio::task::JoinHandle<String>>> = (0..n).map(|_| None).collect();
+    for (i, sc) in order {
         let permit = sem.clone().acquire_owned().await.unwrap();
         let bin = bin.clone();
         let scratch = scratch.clone();
-        handles.push(tokio::spawn(async move {
+        handles[i] = Some(tokio::spawn(async move {
             let s = run_scenario(i, bin, scratch, sc).await;
             drop(permit);
             s
         }));
     }
-    for h in handles {
+    for h in handles.into_iter().flatten() {
         match h.await {
             Ok(s) => writeln!(out, "{s}").unwrap(),
             Err(e) => writeln!(out, "CPPANIC {e}").unwrap(),
